@@ -46,8 +46,10 @@ def strategy(draw, tier="quick"):
         st.fixed_dictionaries({"op": st.just("delete"), "b": b, "k": st.integers(0, 99)}),
         st.fixed_dictionaries({"op": st.just("bulk"), "b": b, "n": st.one_of(st.integers(0, 5), st.integers(0, 5), st.sampled_from([49, 51, 100, 101, 120, 150, 230])), "seed": st.integers(0, 999), "upd": st.integers(0, 2)}),
         st.fixed_dictionaries({"op": st.just("read"), "b": b, "kind": st.sampled_from(["get", "count"])}),
+        st.fixed_dictionaries({"op": st.just("extend_last"), "b": b, "dur_s": st.integers(1, 30)}),  # heartbeat: same start, longer
+        st.fixed_dictionaries({"op": st.just("extend_last"), "b": b, "dur_s": st.integers(1, 30)}),
     )
-    profile = draw(st.sampled_from([ADV, [0, 0, 0, 0.5, 12], [3, 9, 11, 12], [0, 60, 3600], ADV]))
+    profile = draw(st.sampled_from([ADV, [0, 0, 0, 0.5, 12], [3, 9, 11, 12], [0, 60, 3600], ADV, [0.3, 0.4, 0.45], [0.2, 0.3, 0.45, 0.45]]))  # the last two: a burst just slow enough to age past ten seconds before fifty writes
     steps = draw(st.lists(st.tuples(st.sampled_from(profile), op), min_size=5, max_size=60))
     ops = []
     for adv, o in steps:
